@@ -372,7 +372,38 @@ def rule_clock(chk, prog):
   chk.at_least(rule, 7)
 
 
+def rule_uniform_tracer(chk, prog):
+  """Necessary conditions of `a uniform tracer stays uniform`: the flux-form advection −∇·(u q) + q δ cancels for constant q
+  only if the nodal wind and the nodal divergence of the diagnostic state describe the same flow mode for mode, i.e. the wind
+  is synthesised from (ζ, δ) without dropping the top wavenumber and δ is the transform of the prognostic divergence."""
+  from sa import report
+  from rules import c05
+  rule = 'C11.T-uniform-tracer-consistency'
+  probe = report.Check('C11-probe')
+  c05.rule_diagnostic(probe, prog)
+  keep = [i for i in probe.instances if any(w in i['key'] for w in ('cos_lat_u', 'nodal `divergence`', 'nodal `tracers`'))]
+  if len(keep) < 3:
+    raise AnalysisError('C11: the diagnostic-state instances for the wind / divergence / tracers were not produced')
+  for i in keep:
+    i = dict(i, rule=rule)
+    chk.instances.append(i)
+    if i['status'] != 'holds':
+      chk.violations.append(i)
+  probe2 = report.Check('C11-probe')
+  c05.rule_terms(probe2, prog)
+  keep2 = [i for i in probe2.instances if 'horizontal_scalar_advection' in i['key']]
+  if len(keep2) < 3:
+    raise AnalysisError('C11: the flux-form instances of horizontal_scalar_advection were not produced')
+  for i in keep2:
+    i = dict(i, rule=rule)
+    chk.instances.append(i)
+    if i['status'] != 'holds':
+      chk.violations.append(i)
+  chk.at_least(rule, 6)
+
+
 def run(chk, prog, tier):
+  rule_uniform_tracer(chk, prog)
   rule_p0(chk, prog)
   rule_p1(chk, prog)
   rule_p2(chk, prog)
@@ -391,7 +422,7 @@ def run(chk, prog, tier):
                    'spectral-axis mixing operators and einsum subscripts are inspected; filter scalings are reduced to their leaf dependences (rule shared with C15); each '
                    'integrator step is evaluated over opaque F, G, G⁻¹ and classified in the LIN domain; the clock fields are read off the re-packing wrappers; the '
                    'outermost operator of every additive term of the dry / shallow-water vorticity and divergence tendencies is extracted and the l=0 behaviour of '
-                   'those operators is evaluated in the value-at-zero domain. Not decided: moist global means, uniform-tracer preservation (quadrature exactness).'),
+                   'those operators is evaluated in the value-at-zero domain. Uniform tracer: only the mutual consistency of nodal wind and nodal divergence and the flux form of the advection are decided. Not decided: moist global means, exact uniform-tracer preservation (quadrature exactness).'),
       trusted_base=['python ast', 'sympy canonicalisation', 'the inductive argument premises ⇒ invariant'],
       analysed=dict(classes=['PrimitiveEquations', 'PrimitiveEquationsWithTime', 'MoistPrimitiveEquations', 'MoistPrimitiveEquationsWithCloudMoisture', 'ShallowWaterEquations'],
                     integrators=INTEGRATORS),
